@@ -11,7 +11,7 @@ ID = 'C06'
 RULE = ('Hypothesis-generated netlists (fork chains, both port styles, open pins/outputs, state elements) x stimuli x options. Part wave: '
         'WaveSim plain configuration vs (1) c_reuse, (2) strip_forks with zero delay on every line read by a fork and uniform capacity, '
         '(3) WaveSimCuda incl. abuf, (3b) a simulator object already used with other stimuli vs a fresh one, (4) more allocated lanes with arbitrary data in the extra lanes, (5) lane permutation, (6) c_prop(sims=k), '
-        '(7) delay dataset selection modes 0 (global) and 1 (per lane) vs simulating with that dataset alone (mode 2, pseudo-random picking, is not part of the statement and not exercised), (8) s_ppo_to_ppi of '
+        '(7) delay dataset selection modes 0 (global) and 1 (per lane), uniform and mixed lane by lane, vs simulating with that dataset alone (mode 2, pseudo-random picking, is not part of the statement and not exercised), (8) s_ppo_to_ppi of '
         'both classes; compared: s[3..8], s[10] at all outputs / state elements, exact equality. Part logic: LogicSim m=2/4/8 plain vs c_reuse, '
         'strip_forks, extra lanes, lane permutation on s[1]. non-trivial: circuit has a multi-output fork and >= 3 levels and the compared '
         'configurations really differ (c_len smaller with reuse / fewer ops when stripped); distinct by SHA-1 of the case.')
@@ -145,6 +145,14 @@ def prop_wave(case):
             for lane in range(lanes):
                 ref = sim(dl=delays[sel[lane]:sel[lane] + 1])
                 same(res(ref, [lane]), res(s7b, [lane]), f'{klass.__name__} simctl_int[1]=1 lane {lane} dataset {sel[lane]}')
+            # the method is a per-simulation setting: lanes with method 0 (dataset = seed argument) next to lanes with method 1 (own dataset)
+            mv = [((case['seed'] * 5 + 3) >> lane) & 1 for lane in range(lanes)]
+            s7c = sim(klass, mode=mv, per_lane=sel, seed=g)
+            for lane in range(lanes):
+                ds = sel[lane] if mv[lane] else g
+                ref = sim(dl=delays[ds:ds + 1])
+                same(res(ref, [lane]), res(s7c, [lane]), f'{klass.__name__} simctl_int[1]={mv} lane {lane} dataset {ds}')
+            if len(set(mv)) > 1 and 'mixed_selection_methods' not in labels: labels.append('mixed_selection_methods')
         labels.append('datasets>1')
     # 8 state transfer
     both = [b.s_pos(n) for kk, n in enumerate(b.st) if nl['st'][kk]['d'] is not None and len(n.outs) > 0]
